@@ -1,5 +1,5 @@
 (* C02 — no lost wake-up in concurrent_monitor.  Property theorems only; proofs live in MonProofs.v. *)
-From OTV Require Import Lib.Tac Lib.Conc MonModel MonProofs.
+From OTV Require Import Lib.Tac Lib.Conc MonModel MonProofs Mon1Model.
 Local Open Scope Z_scope.
 
 (* For ANY number of waiters (each running concurrent_monitor::wait(pred, node)) and notifiers (each making the
@@ -45,6 +45,13 @@ Theorem monitor_run_is_reachable : forall nw nn sched c evs,
   run mstep (minit nw nn) sched = (c, evs) -> reach mstep (minit nw nn) c.
 Proof. intros. eapply run_reach; eauto. Qed.
 Print Assumptions monitor_run_is_reachable.
+
+(* the predicate form used by tbb::mutex / address waiters (notify_one_relaxed(predicate)): whatever other waiters are queued, if a
+   waiter of the notified address is in the wait set, the backward scan finds a waiter of that address (Mon1Model.last_match) *)
+Theorem notify_one_finds_a_matching_waiter : forall ctx a ws w,
+  In w ws -> nth w ctx 0 = a -> exists x, last_match ctx a ws = Some x /\ In x ws /\ nth x ctx 0 = a.
+Proof. exact last_match_some. Qed.
+Print Assumptions notify_one_finds_a_matching_waiter.
 
 (* non-vacuity: the waiter commits to sleep, the notifier sets the condition and wakes it, the waiter returns;
    and the racy variant where the notifier bumps the epoch between prepare and commit (skipped wake-up, pumped) *)
